@@ -227,6 +227,9 @@ def random_config(rng):
         cfg['objects'] = dict((f'n{i}', o) for i, o in enumerate(objs)) if rng.random() < 0.4 else list(objs)
         cfg['check_on_set'] = rng.random() < 0.85
         extra += list(objs) + [[o] for o in objs] + [objs[:2], [objs[0], 'zz'], 1.0, [1.0], 'zz']
+        if isinstance(cfg['objects'], dict):
+            # (the NAME of an object is not one of the objects)
+            extra += ['n0', ['n0'], 'n1']
     elif t == 'ClassSelector':
         cfg['class_'] = rng.choice([int, str, (int, str), Dummy, DummySub, dict])
         cfg['is_instance'] = rng.random() < 0.7
